@@ -69,7 +69,12 @@ CHECKS = {
               "copy constraints. Native_Trace recomputes Dom/Def in TLC and demands completeness and the soundness game "
               "'satisfiable => exposed outputs = Def(exposed inputs) and inputs in Dom' for honest runs and for tamper "
               "plans in which the guarded hook H1 replaces the i-th advice assignment consistently (every index x "
-              "faults +1, -1, 0, 1-v, v+2^j)."),
+              "faults +1, -1, 0, 1-v, v+2^j). GadgetSat.tla plays the same game with the FULL adversary on tiny fields: the "
+              "real constraint system (gates, lookups, copies, fixed columns, assigned cells, exposure cells) of each algebraic "
+              "operation circuit built by the generic code over F_5 (and F_7) is extracted, and TLC searches EVERY assignment "
+              "of the assigned advice cells row by row (gates and copies prune); the invariant demands that every satisfying "
+              "assignment exposes outputs = Def(inputs) with inputs in Dom, and the inputs reached must be the whole domain "
+              "(26 operation instances on quick, all of them over both fields plus sgn0 / to_le_bits on thorough)."),
         design_ref="DESIGN.md 4/C04",
         note=("Toy field 12289 (generic code); single consistent fault per run; MockProver judges satisfiability; the "
               "exhaustive tiny-field assignment search of DESIGN decision 1 and the vector/map gadgets are not built."),
